@@ -164,6 +164,21 @@ const header = `<?xml version="1.0" encoding="UTF-8"?>
 <bpmn:definitions xmlns:bpmn="http://www.omg.org/spec/BPMN/20100524/MODEL" xmlns:bpmndi="http://www.omg.org/spec/BPMN/20100524/DI" xmlns:dc="http://www.omg.org/spec/DD/20100524/DC" xmlns:di="http://www.omg.org/spec/DD/20100524/DI" xmlns:olive="http://olive.io/spec/BPMN/MODEL" xmlns:xsi="http://www.w3.org/2001/XMLSchema-instance" id="defs" targetNamespace="http://bpmn.io/schema/bpmn" expressionLanguage="https://github.com/expr-lang/expr">
 `
 
+// ShuffleDecl permutes the order in which nodes and sequence flows are DECLARED in the XML document (a seeded
+// Fisher-Yates driven by next). The incoming/outgoing lists of the nodes — the order that carries meaning — are
+// untouched, so an engine that derives a gateway's flow order from the declaration order instead of the gateway's
+// own <outgoing> list shows up.
+func (g *Graph) ShuffleDecl(next func(n int) int) {
+	for i := len(g.Flows) - 1; i > 0; i-- {
+		j := next(i + 1)
+		g.Flows[i], g.Flows[j] = g.Flows[j], g.Flows[i]
+	}
+	for i := len(g.Nodes) - 1; i > 0; i-- {
+		j := next(i + 1)
+		g.Nodes[i], g.Nodes[j] = g.Nodes[j], g.Nodes[i]
+	}
+}
+
 // XML renders the graph as a BPMN document with a single process.
 func (g *Graph) XML() string {
 	var sb strings.Builder
